@@ -50,7 +50,9 @@ ASSUMPTIONS = [
 COMPONENTS_REAL = ["BitErrorRate", "BlockErrorRate (+ SymbolErrorRate/FrameErrorRate/BLER/SER/FER aliases, registry names ber/bler/fer/ser)", "StandardMetrics.bit_error_rate", "StandardMetrics.block_error_rate"]
 COMPONENTS_STUB = ["delivery layer between the data stream and the metric (simulator-owned)", "reference counter"]
 
-DT = {"float32": torch.float32, "float64": torch.float64, "int64": torch.int64}
+DT = {"float32": torch.float32, "float64": torch.float64, "int64": torch.int64, "int32": torch.int32, "uint8": torch.uint8, "int8": torch.int8,
+      "float16": torch.float16, "bfloat16": torch.bfloat16, "bool": torch.bool}
+CORE_DTYPES = ("float32", "float64", "int64", "complex64")  # every other dtype may be rejected by a metric (never counted wrongly)
 BLER_ALIASES = ["BlockErrorRate", "BLER", "SymbolErrorRate", "FrameErrorRate", "FER", "SER"]
 
 
@@ -75,7 +77,8 @@ def gen_case(run_seed: int, index: int, tier: str) -> dict:
     case = {
         "metric": metric,
         "complex": cplx,
-        "dtype": rng.choice(["float32", "float32", "float64", "int64"]) if not cplx else "complex64",
+        # hard decisions arrive in whatever dtype the caller keeps them in (comparison results are bool, packed bits uint8, ...)
+        "dtype": rng.choice(["float32", "float32", "float32", "float64", "int64", "int32", "uint8", "int8", "float16", "bfloat16", "bool", "bool"]) if not cplx else "complex64",
         "L": L,
         "block": block,
         "how": rng.choice(["class", "alias", "registry"]),
@@ -140,6 +143,9 @@ def gen_case(run_seed: int, index: int, tier: str) -> dict:
             rows = [rng.randrange(npool) for _ in range(rng.choice([1, 1, 2, 3, 5, 8, 17, 64]))]
             layout = rng.choice(["2d", "2d", "3d", "flat", "strided"])
             ops.append(["update", rows, layout])
+            if not cplx and rng.random() < 0.06:
+                # this one batch arrives in another dtype than the rest of the stream (e.g. raw comparison results)
+                ops[-1].append(rng.choice(["bool", "bool", "uint8", "int8", "int32", "float16", "bfloat16", "float64"]))
     if rng.random() < (0.004 if tier == "quick" else 0.002):
         # long stream: one huge update, then many small ones (float32 accumulation drift would show)
         ops.insert(rng.randrange(len(ops) + 1), ["bigupdate", rng.choice([17, 20]) * 1000 * 1000, rng.choice(["alldiff", "half", "equal"])])
@@ -266,7 +272,39 @@ def execute(case: dict) -> RunResult:
         bufs[key].copy_(t)
         return bufs[key]
 
+    diverged = [False]  # the paired objects no longer hold the same data (one of them rejected a batch)
+
+    def after_failed(k, o, counted, what):
+        """A call on the live object raised.  Like any failed operation it may have taken effect completely (where that is
+        defined: `counted` = the batch's (errors, total)) or not at all; a half-applied batch is a violation.  Nothing else is
+        asked.  When both readings give the same value the object is reset (the ambiguity cannot be resolved by reading)."""
+        res.faults["history.call_raised_on_live_object"] += 1
+        res.probes[f"rejected_on_live_object.{k}"] += 1
+        diverged[0] = True
+        got = float(o.compute())
+        e0, t0 = ref[k]
+        without = e0 / t0 if t0 else fresh_val[k]
+        cands = [("not at all", [e0, t0], without)]
+        if counted is not None and (t0 + counted[1]):
+            cands.append(("completely", [e0 + counted[0], t0 + counted[1]], (e0 + counted[0]) / (t0 + counted[1])))
+        hits = [c for c in cands if _close(got, c[2])]
+        log.add("after_failed", {"metric": k, "value": got, "hits": [c[0] for c in hits]})
+        if not hits:
+            violate(cname[k], "half_applied_call", f"{what}; afterwards compute() = {got!r}, which is neither the value before the call ({without!r}) nor the value with the batch counted completely" + (f" ({cands[1][2]!r})" if len(cands) > 1 else ""))
+            o.reset()
+            ref[k] = [0, 0]
+        elif len(hits) == 1 or hits[0][1] == hits[-1][1]:
+            ref[k] = list(hits[0][1])
+        else:
+            o.reset()
+            ref[k] = [0, 0]
+            got0 = float(o.compute())
+            if not _close(got0, fresh_val[k]):
+                violate(cname[k], "reset", f"compute() right after reset() = {got0!r}; a fresh object gives {fresh_val[k]!r}")
+
     for oi, op in enumerate(case["ops"]):
+        if op[0] in ("bigupdate", "alias_pair", "helper") and case["dtype"] not in CORE_DTYPES:
+            continue  # these operations are exercised with the core dtypes only
         if op[0] == "update":
             rows, layout = op[1], op[2]
             x = buffered(_mk_tensor(case, rows, "X", layout), "x", len(rows))
@@ -275,8 +313,19 @@ def execute(case: dict) -> RunResult:
                 if "ber" in objs and case["metric"] == "ber":
                     x, y = x.reshape(-1), y.reshape(-1)
             be, bt, ke, kt = _ref_counts(case, rows, block)
+            eff = case["dtype"]
+            if len(op) > 3:
+                eff = op[3]
+                x, y = x.to(DT[eff]), y.to(DT[eff])
+                res.faults["delivery.batch_in_another_dtype"] += 1
             for k, o in objs.items():
-                o.update(x, y)
+                try:
+                    o.update(x, y)
+                except Exception as exc:
+                    if eff in CORE_DTYPES:
+                        raise
+                    after_failed(k, o, (be, bt) if k == "ber" else (ke, kt), f"update() raised {type(exc).__name__} for dtype {eff}")
+                    continue
                 ref[k][0] += be if k == "ber" else ke
                 ref[k][1] += bt if k == "ber" else kt
             n_updates += 1
@@ -339,7 +388,7 @@ def execute(case: dict) -> RunResult:
                 log.add("compute", {"metric": k, "value": got, "ref": [ref[k][0], ref[k][1]]})
                 if not _close(got, want):
                     violate(cname[k], "streaming_value", f"compute() = {got!r} after {n_updates} updates since construction; reference counter says {ref[k][0]}/{ref[k][1]} = {want!r}")
-            if len(objs) == 2 and ref["ber"][1] and ref["bler"][1]:
+            if len(objs) == 2 and ref["ber"][1] and ref["bler"][1] and not diverged[0]:
                 B = (block or L) * (2 if case["complex"] else 1)
                 b_, l_ = vals["ber"], vals["bler"]
                 if not (b_ <= l_ + 2e-6 and l_ <= min(1.0, B * b_) + 2e-6 * B):
@@ -348,6 +397,7 @@ def execute(case: dict) -> RunResult:
         elif op[0] == "reset":
             if 0 < oi < nops - 1:
                 inner = True
+            diverged[0] = False
             for k, o in objs.items():
                 o.reset()
                 ref[k] = [0, 0]
@@ -363,8 +413,14 @@ def execute(case: dict) -> RunResult:
             be, bt, ke, kt = _ref_counts(case, rows, block)
             for k in kinds:
                 m = _make(case, k)
-                got = float(m(x, y))
-                rev = float(m(y, x))
+                try:
+                    got = float(m(x, y))
+                    rev = float(m(y, x))
+                except Exception:
+                    if case["dtype"] in CORE_DTYPES:
+                        raise
+                    res.probes[f"rejected.{case['dtype']}.{k}"] += 1
+                    continue
                 want = (be / bt) if k == "ber" else (ke / kt)
                 log.add("oneshot", {"metric": k, "rows": rows, "value": got})
                 if not _close(got, want):
@@ -381,7 +437,13 @@ def execute(case: dict) -> RunResult:
             y = buffered(_mk_tensor(case, rows, "Y", "2d"), "y", len(rows))
             be, bt, ke, kt = _ref_counts(case, rows, block)
             for k, o in objs.items():
-                got = o(x, y)
+                try:
+                    got = o(x, y)
+                except Exception as exc:
+                    if case["dtype"] in CORE_DTYPES:
+                        raise
+                    after_failed(k, o, None, f"metric(x, y) on the live object raised {type(exc).__name__} for dtype {case['dtype']}")
+                    continue
                 want = (be / bt) if k == "ber" else (ke / kt)
                 log.add("oneshot_live", {"metric": k, "rows": rows, "value": got})
                 if not isinstance(got, torch.Tensor) or got.numel() != 1:
